@@ -176,8 +176,17 @@ def parseHOp (s : String) : Option Op :=
     let c ← natList c
     let out ← match k with
       | "ok" => some (Outcome.ok d c) | "fail" => some (.fails d c) | "open" => some (.leftOpen d c) | "closed" => some (.closedEarly d c)
+      | "rejected" => some .rejected
       | _ => none
     some (.call ord p out)
+  | ["A", p, k, d, c] => do
+    let p ← p.toNat?
+    let d ← d.toNat?
+    let c ← natList c
+    let out ← match k with
+      | "settled" => some (ApplyOutcome.settled d c) | "poolfailed" => some (.poolFailed d c)
+      | _ => none
+    some (.apply p out)
   | _ => none
 where parseB' : String → Option Bool | "1" => some true | "0" => some false | _ => none
 
